@@ -88,6 +88,28 @@ fn g_entities(rng: &mut Rng, n: usize) -> Vec<Case> {
         let refs: String = (0..m).map(|_| "&z;").collect();
         out.push(case(true, format!("<!DOCTYPE a [<!ENTITY t 'x'><!ENTITY z ''>]><a b='{}&#10;'>{}&#13;</a><!--t-->", refs, refs)));
     }
+    // many top-level references, each with nested references (the 255 budget is per top-level reference)
+    for m in [2usize, 60, 130, 300] {
+        let refs: String = (0..m).map(|_| "&a;").collect();
+        out.push(case(true, format!("<!DOCTYPE r [<!ENTITY b 'x'><!ENTITY a '&b;&b;'>]><r k='{}'>{}</r>", refs, refs)));
+        out.push(case(true, format!("<!DOCTYPE r [<!ENTITY b 'x'><!ENTITY a '<e f=\"&b;\">&b;</e>'>]><r>{}<s t='&b;'/>{}</r>", refs, refs)));
+    }
+    // expansion below one top-level reference through elements whose attributes need normalisation
+    for m in [10usize, 255, 256, 300] {
+        let refs: String = (0..m).map(|_| "&leaf;").collect();
+        out.push(case(true, format!("<!DOCTYPE r [<!ENTITY leaf \"<p t='&#65;'/>\"><!ENTITY many '{}'>]><r>&many;</r>", refs)));
+        out.push(case(true, format!("<!DOCTYPE r [<!ENTITY v 'w'><!ENTITY leaf \"<p t='&v;&#9;'/>\"><!ENTITY many '{}'>]><r>&many;&many;</r>", refs)));
+    }
+    for f in 2..=5usize {
+        for d in 3..=8usize {
+            let mut dtd = String::from("<!DOCTYPE r [<!ENTITY l0 \"<p t='a&#9;b'/>\">");
+            for k in 1..=d {
+                let body: String = (0..f).map(|_| format!("&l{};", k - 1)).collect();
+                dtd.push_str(&format!("<!ENTITY l{} '{}'>", k, body));
+            }
+            out.push(case(true, format!("{}]><r>&l{};</r>", dtd, d)));
+        }
+    }
     // entity values built from pieces (references to CR/LF/TAB next to literal line ends ...)
     let alpha = ["x", "\r", "\n", "\t", "&#13;", "&#10;", "&#9;", "&#32;", "&lt;", "&amp;", "\u{e9}", "&z;", "<b/>"];
     let seqs = crate::gen::enum_strings(if n >= 30 { 3 } else { 2 }, &alpha);
@@ -143,11 +165,14 @@ fn g_exotic(rng: &mut Rng, n: usize) -> Vec<Case> {
         '\u{c0}', '\u{bf}', '\u{7f}', '\u{80}', '\u{1}', '\u{8}', '\u{b}', '\u{c}', '\u{e}', '\u{1f}', ' ', '\t', '-', '.',
         '0', ':', '_', 'A',
     ];
-    let templates: [&str; 22] = [
+    let templates: [&str; 30] = [
         "<?pi @x?><a/>", "<?pi x@?><a/>", "<?pi@ x?><a/>", "<?@pi x?><a/>", "<!--@x--><a/>", "<!--x@--><a/>",
         "<a>@x</a>", "<a>x@</a>", "<a b='@x'/>", "<a b='x@'/>", "<@a/>", "<a@/>", "<a@b='c'/>", "<a @b='c'/>",
         "<a b@='c'/>", "<p:a xmlns:p='u' p:b@c='d'/>", "<a><![CDATA[@]]></a>", "<a xmlns:p@='u'/>",
         "<!DOCTYPE a [<!ENTITY e '@'>]><a b='&e;'>&e;</a>", "<!DOCTYPE @a><a/>", "<a>&@;</a>", "<a></a@>",
+        "<a b='\u{436}\u{436}@'/>", "<a>\u{436}\u{20ac}\n\u{1F600}@</a>", "<\u{436}\u{436} b='\u{20ac}\n\u{20ac}@'/>",
+        "<!--\u{436}\u{436}@--><a/>", "<?pi \u{20ac}\u{20ac}@?><a/>", "<a><![CDATA[\u{436}\n\u{436}@]]></a>",
+        "<!DOCTYPE a [<!ENTITY e '\u{436}\u{436}@'>]><a b='&e;'/>", "<!DOCTYPE a [<!ENTITY e '\u{436}\n@'>]><a>&e;</a>",
     ];
     let mut out = Vec::new();
     for (k, t) in templates.iter().enumerate() {
@@ -187,10 +212,10 @@ fn g_pieces2(_rng: &mut Rng, n: usize, attr: bool) -> Vec<Case> {
 
 /// Namespace declaration patterns: exhaustive over small trees x declaration alphabets.
 fn g_ns(rng: &mut Rng, n: usize) -> Vec<Case> {
-    let decls = ["", "xmlns='u'", "xmlns='v'", "xmlns=''", "xmlns:p='u'", "xmlns:p='v'", "xmlns:q='u'", "xmlns:p='u' xmlns:q='u'",
+    let decls = ["", "", "xmlns:p='u' xmlns:q='u' xmlns='u'", "xmlns='u' xmlns:p='u'", "xmlns='u'", "xmlns='v'", "xmlns=''", "xmlns:p='u'", "xmlns:p='v'", "xmlns:q='u'", "xmlns:p='u' xmlns:q='u'",
         "xmlns:p='v' xmlns='u'", "xmlns:p=''"];
     let names = ["a", "p:a", "q:a", "xml:a"];
-    let attrs = ["", "b='1'", "p:b='1'", "q:b='1' p:b='2'", "xml:lang='en'", "b='1' p:b='1'"];
+    let attrs = ["", "b='1'", "p:b='1'", "q:b='1'", "q:b='1' p:b='2'", "xml:lang='en'", "b='1' p:b='1'"];
     let mut out = Vec::new();
     let total = n.max(1) * 400;
     for _ in 0..total {
@@ -668,6 +693,7 @@ fn cmd_illform(seed: u64) {
                     let at = e.0 + gt + 1;
                     if at <= e.1 && !t[e.0..at].contains("<!") {
                         edits.push(("']]>' in text".into(), ins(at, "a]]>b")));
+                        edits.push(("XML declaration in element content".into(), ins(at, "<?xml version='1.0'?>")));
                         edits.push(("'--' in comment".into(), ins(at, "<!-- a--b -->")));
                         edits.push(("comment ending in '-'".into(), ins(at, "<!-- a --->")));
                         edits.push(("malformed reference in text".into(), ins(at, "a & b")));
@@ -879,6 +905,47 @@ fn cmd_repeat() {
             }
         }
     }
+    // the same allocation reused for different texts of the same length (address and length equal,
+    // content different): results must only depend on the content
+    let mut buf = String::new();
+    for (id, dtd, limit, t) in &cases {
+        let variants = [t.replace('\n', " "), t.replace(' ', "\n"), t.clone()];
+        for v in variants.iter() {
+            if v.len() != t.len() {
+                continue;
+            }
+            let fresh = guarded(|| {
+                let r = Document::parse_with_options(v, opts(*dtd, *limit));
+                let pos: Vec<String> = match &r {
+                    Ok(d) => (0..v.len().min(40)).map(|p| format!("{}", d.text_pos_at(p))).collect(),
+                    Err(_) => Vec::new(),
+                };
+                (result_str(&r), pos)
+            });
+            buf.clear();
+            buf.push_str(t);
+            let _ = guarded(|| {
+                let r = Document::parse_with_options(&buf, opts(*dtd, *limit));
+                if let Ok(d) = &r {
+                    let _ = d.text_pos_at(buf.len());
+                }
+                r.is_ok()
+            });
+            buf.clear();
+            buf.push_str(v);
+            let reused = guarded(|| {
+                let r = Document::parse_with_options(&buf, opts(*dtd, *limit));
+                let pos: Vec<String> = match &r {
+                    Ok(d) => (0..buf.len().min(40)).map(|p| format!("{}", d.text_pos_at(p))).collect(),
+                    Err(_) => Vec::new(),
+                };
+                (result_str(&r), pos)
+            });
+            if fresh != reused {
+                verdict(&mut out, id, false, "result depends on what was parsed before in the same buffer", &[t, v]);
+            }
+        }
+    }
     for (id, _, _, _) in &cases {
         writeln!(out, "VERDICT {} ok", id).unwrap();
     }
@@ -914,11 +981,13 @@ fn cmd_threads(seed: u64) {
             o
         };
         let expect: Vec<String> = ids.iter().map(|i| per_node(*i)).collect();
+        let pos_expect: Vec<roxmltree::TextPos> = (0..=t.len() + 1).map(|p| doc.text_pos_at(p)).collect();
         let bad = std::sync::atomic::AtomicUsize::new(0);
         std::thread::scope(|s| {
             for th in 0..16u64 {
                 let ids = &ids;
                 let expect = &expect;
+                let pos_expect = &pos_expect;
                 let bad = &bad;
                 let doc = &doc;
                 let root = doc.root();
@@ -930,6 +999,12 @@ fn cmd_threads(seed: u64) {
                         crate::dump::api_node(&mut o, doc, doc.get_node(NodeId::new(ids[k])).unwrap());
                         if o != expect[k] || root.id().get() != 0 {
                             bad.fetch_add(1, std::sync::atomic::Ordering::Relaxed);
+                        }
+                        for _ in 0..40 {
+                            let p = rng.below(pos_expect.len());
+                            if doc.text_pos_at(p) != pos_expect[p] {
+                                bad.fetch_add(1, std::sync::atomic::Ordering::Relaxed);
+                            }
                         }
                     }
                 });
@@ -1017,7 +1092,15 @@ fn cmd_ord(seed: u64) {
                     None => '?',
                 })
                 .collect();
-            let hs: String = nodes.iter().map(|(_, b)| if a != b || h(a) == h(b) { '1' } else { '0' }).collect();
+            // equal nodes must hash equally, also when the two handles live at different addresses
+            let hs: String = nodes
+                .iter()
+                .map(|(_, b)| {
+                    let copy: Box<Node> = Box::new(*b);
+                    let again = b.document().get_node(b.id()).unwrap();
+                    if a != b || (h(a) == h(&copy) && h(a) == h(&again) && again == *a) { '1' } else { '0' }
+                })
+                .collect();
             writeln!(out, "ORD row eq={} cmp={} pcmp={} hashok={}", eq, cmp, pc, hs).unwrap();
         }
         let mut idx: Vec<usize> = (0..nodes.len()).collect();
